@@ -147,6 +147,17 @@ pub fn dump_buffer<'a, S: Sink, A: AsRef<str>>(
     let resolved_first = if variant == 3 { Some(buf.into_resolved_token_vec()) } else { None };
     let mut recs: Vec<Acc<'a>> = vec![Acc::default(); n];
     match variant {
+        v if v >= 16 => {
+            // token-major, starting at token `v - 16` and wrapping around
+            let k0 = (v as usize - 16).min(n);
+            for j in (k0..n).chain(0..k0) {
+                tick();
+                let (tidx, info) = &infos[j];
+                for k in 0..N_ACCESSORS {
+                    call_accessor(k, buf, src, *tidx, info.payload(), &mut recs[j]);
+                }
+            }
+        }
         1 => {
             for k in 0..N_ACCESSORS {
                 for (j, (tidx, info)) in infos.iter().enumerate() {
@@ -244,6 +255,18 @@ pub fn dump_buffer<'a, S: Sink, A: AsRef<str>>(
         s.num("end_col", u64::from(r.end_column));
         payload(s, r.payload);
         s.end_row();
+    }
+}
+
+/// Calls every accessor for tokens `0..upto` (token-major) and throws the answers away:
+/// leaves whatever lookup hints / memos the buffer keeps in the state a consumer that
+/// stopped half-way would leave them in.
+pub fn partial_walk<A: AsRef<str>>(src: &A, buf: &TokenizedBuffer, upto: usize) {
+    let mut rec = Acc::default();
+    for (tidx, info) in buf.iter_tokens_infos().take(upto) {
+        for k in 0..N_ACCESSORS {
+            call_accessor(k, buf, src, tidx, info.payload(), &mut rec);
+        }
     }
 }
 
